@@ -430,14 +430,10 @@ func (m *Manager) writeSnapshot(w io.Writer) error {
 		for _, id := range ids {
 			meta := version.ValueLogs[id]
 			metaCopy := meta
-			if meta.Valid {
-				if err := writeEdit(w, Edit{Type: EditUpdateValueLog, ValueLog: &metaCopy}); err != nil {
-					return err
-				}
-			} else {
-				if err := writeEdit(w, Edit{Type: EditDeleteValueLog, ValueLog: &metaCopy}); err != nil {
-					return err
-				}
+			// An update record carries every field, also for an invalidated segment; a
+			// delete record would reset its offset on reload.
+			if err := writeEdit(w, Edit{Type: EditUpdateValueLog, ValueLog: &metaCopy}); err != nil {
+				return err
 			}
 		}
 	}
